@@ -442,6 +442,31 @@ def r6_debug_observation_only(ctx):
             if isinstance(n, ast.Call) and isinstance(n.func, ast.Attribute) and n.func.attr in ("empty", "update", "set_readout", "run", "run_pipeline") and dotted(n.func.value) and dotted(n.func.value).split(".")[0] in (det, "self"):
                 ctx.fail(f.qual + "#debug-call", f"debug block calls {norm(n.func)}", where=f, node=n)
     ctx.ok(f.qual + "#debug", f"{n_ok} detector accesses in the debug block, all read-only/intermediate", where=f, node=blocks[0], facts={"accesses": n_ok})
+    # "after each model, the buckets that THIS model changed": the reference snapshot every bucket is
+    # compared with is refreshed once per model (inside the model loop), from the state after that model
+    snaps = []
+    for st_, t in stores(f.node, lambda t: isinstance(t, ast.Subscript) and (dotted(t.value) or "").startswith(det + ".") and "intermediate" in (dotted(t.value) or "")):
+        key = expand(f, t.slice)
+        if isinstance(key, ast.Constant) and key.value == "last":
+            snaps.append(st_)
+    model_loops = [l for l in loops_in(f.node) if isinstance(l, ast.For) and enclosing_loop(l) is None]
+    if snaps and model_loops:
+        ml = model_loops[0]
+        inside = [s_ for s_ in snaps if contains(ml, s_)]
+        outside = [s_ for s_ in snaps if not contains(ml, s_)]
+        g6 = ctx.cfg(f)
+        ok = len(inside) >= 1 and not outside
+        if ok:
+            dbg_paths_ok = True
+            # every iteration with debug on passes through a refresh
+            for b in blocks:
+                if contains(ml, b):
+                    lo, hi = g6.count_events_per_iteration(g6.node_of(ml), [n_ for s_ in inside for n_ in g6.nodes_of(s_)])
+                    dbg_paths_ok = hi == 1
+            ok = dbg_paths_ok and all(contains(b, s_) for s_ in inside for b in blocks[:1])
+        ctx.check(ok, f.qual + "#snapshot-per-model", "the comparison snapshot is refreshed once per model" if ok else "the snapshot the buckets are compared with is not refreshed after every model (a later model of the group is credited with the changes of an earlier one)", where=f, node=(outside or inside or [f.node])[0])
+    elif blocks:
+        ctx.fail(f.qual + "#snapshot-per-model", "no per-model reference snapshot found in the debug capture", where=f, node=blocks[0])
     for q in ("pyxel.detectors.detector:Detector.to_xarray", "pyxel.data_structure.array:ArrayBase.to_xarray", "pyxel.data_structure.photon:Photon.to_xarray", "pyxel.data_structure.charge:Charge.to_xarray"):
         fn = ctx.func(q)
         bad = []
